@@ -1,0 +1,272 @@
+//! Verification hooks (feature `verif`).
+//!
+//! Purely additive instrumentation used by external model-checking harnesses:
+//! - a thread-local event sink that receives [`VerifEvent`]s from the system command runner and cobweb commands,
+//! - a read-only [`Snapshot`] of the framework's internal bookkeeping.
+//!
+//! Nothing in this module changes the behavior of the crate.
+
+//local shortcuts
+use crate::prelude::*;
+use crate::react::*;
+
+//third-party shortcuts
+use bevy::prelude::*;
+
+//standard shortcuts
+use std::any::TypeId;
+use std::cell::RefCell;
+
+//-------------------------------------------------------------------------------------------------------------------
+
+/// The kind of cobweb command being applied.
+#[derive(Debug, Copy, Clone, Eq, PartialEq, Hash)]
+pub enum VerifCommandKind
+{
+    SystemCommand,
+    SystemEvent,
+    Resource,
+    Insertion(TypeId),
+    Mutation(TypeId),
+    Removal(TypeId),
+    Despawn,
+    EntityEvent,
+    Broadcast,
+}
+
+/// Decision taken by the system command runner for one command.
+#[derive(Debug, Copy, Clone, Eq, PartialEq, Hash)]
+pub enum VerifRunnerDecision
+{
+    /// The system was extracted and is about to run.
+    Run,
+    /// The system is missing its callback and we are not at the tree root: the command was buffered.
+    Postponed,
+    /// The target entity does not exist.
+    AbortDead,
+    /// The target entity has no system command storage.
+    AbortNoComponent,
+    /// The callback is missing at the root of a tree.
+    AbortRootMissing,
+}
+
+/// Events emitted by hooks.
+#[derive(Debug, Clone, Eq, PartialEq, Hash)]
+pub enum VerifEvent
+{
+    /// A cobweb command is being applied (emitted before any other work of the command).
+    CommandApply{ kind: VerifCommandKind, target: Entity, source: Option<Entity>, data_entity: Option<Entity> },
+    /// `syscommand_runner` was entered.
+    RunnerEnter{ target: Entity, counter: usize },
+    /// `syscommand_runner` decided what to do with the command.
+    RunnerDecision{ target: Entity, decision: VerifRunnerDecision },
+    /// The callback returned.
+    RunnerBodyDone{ target: Entity },
+    /// The callback was reinserted (true) or dropped (false).
+    RunnerReinsert{ target: Entity, reinserted: bool },
+    /// A buffered command is being replayed from within the runner of `parent`.
+    RunnerReplay{ parent: Entity, target: Entity },
+    /// A buffered command is being discarded at the root.
+    RunnerDiscard{ target: Entity },
+    /// `syscommand_runner` returns.
+    RunnerExit{ target: Entity, counter: usize },
+}
+
+thread_local!
+{
+    static SINK: RefCell<Option<Box<dyn FnMut(VerifEvent)>>> = RefCell::new(None);
+}
+
+/// Installs (or clears) the thread-local event sink.
+pub fn set_sink(sink: Option<Box<dyn FnMut(VerifEvent)>>)
+{
+    SINK.with(|s| *s.borrow_mut() = sink);
+}
+
+/// Emits an event to the thread-local sink, if any.
+pub fn emit(event: VerifEvent)
+{
+    SINK.with(
+        |s|
+        {
+            // Ignore re-entrant emits (a sink must not trigger cobweb code).
+            let Ok(mut guard) = s.try_borrow_mut() else { return };
+            if let Some(sink) = guard.as_mut() { (sink)(event); }
+        }
+    );
+}
+
+pub(crate) fn reaction_kind(rtype: EntityReactionType) -> VerifCommandKind
+{
+    match rtype
+    {
+        EntityReactionType::Insertion(id) => VerifCommandKind::Insertion(id),
+        EntityReactionType::Mutation(id)  => VerifCommandKind::Mutation(id),
+        EntityReactionType::Removal(id)   => VerifCommandKind::Removal(id),
+        EntityReactionType::Event(_)      => VerifCommandKind::EntityEvent,
+    }
+}
+
+//-------------------------------------------------------------------------------------------------------------------
+
+/// Trigger kind of one registration-table entry.
+#[derive(Debug, Copy, Clone, Eq, PartialEq, Hash, Ord, PartialOrd)]
+pub enum VerifTableKind
+{
+    ComponentInsertion,
+    ComponentMutation,
+    ComponentRemoval,
+    EntityInsertion,
+    EntityMutation,
+    EntityRemoval,
+    EntityEvent,
+    AnyEntityEvent,
+    ResourceMutation,
+    Broadcast,
+    Despawn,
+}
+
+/// One list of the registration tables.
+#[derive(Debug, Clone, Eq, PartialEq, Hash)]
+pub struct VerifTableEntry
+{
+    pub kind: VerifTableKind,
+    /// Type key (component / event / resource type), if any.
+    pub type_id: Option<TypeId>,
+    /// Entity key, if any.
+    pub entity: Option<Entity>,
+    /// Reactor system entities in list order, with `true` if the handle is ref-counted.
+    pub reactors: Vec<(Entity, bool)>,
+}
+
+/// Read-only view of the framework's bookkeeping.
+#[derive(Debug, Clone, Eq, PartialEq, Hash, Default)]
+pub struct Snapshot
+{
+    pub syscommand_counter: usize,
+    pub buffered_syscommands: usize,
+    pub system_event_prepared: usize,
+    pub system_event_reacting: bool,
+    pub entity_reaction_prepared: usize,
+    pub entity_reaction_reacting: bool,
+    pub event_prepared: usize,
+    pub event_reacting: bool,
+    pub despawn_prepared: usize,
+    pub despawn_reacting: bool,
+    pub despawn_handle_held: bool,
+    /// Number of reaction commands left in the cache's scratch buffer.
+    pub cache_scratch_commands: usize,
+    /// Registration tables (unordered between entries; callers should sort).
+    pub tables: Vec<VerifTableEntry>,
+    /// Number of removal checkers.
+    pub removal_checkers: usize,
+    /// Entities with a `SystemCommandStorage`, with `true` if the callback is present.
+    pub system_commands: Vec<(Entity, bool)>,
+    /// Entities carrying a `DataEntityCounter` (broadcast / entity event data).
+    pub data_entities: Vec<Entity>,
+    /// Pending, unprocessed entries of the auto-despawn channel.
+    pub auto_despawn_pending: usize,
+    /// Pending, unprocessed entries of the despawn-tracker channel.
+    pub despawn_tracker_pending: usize,
+    /// Total number of entities in the world.
+    pub entity_count: usize,
+}
+
+/// Takes a snapshot of the framework's bookkeeping.
+///
+/// Requires [`ReactPlugin`].
+pub fn snapshot(world: &mut World) -> Snapshot
+{
+    let mut snap = Snapshot::default();
+    snap.syscommand_counter = **world.resource::<SyscommandCounter>();
+    snap.buffered_syscommands = world.resource::<CobwebCommandQueue<BufferedSyscommand>>().verif_len();
+    {
+        let t = world.resource::<SystemEventAccessTracker>();
+        (snap.system_event_prepared, snap.system_event_reacting) = t.verif_state();
+    }
+    {
+        let t = world.resource::<EntityReactionAccessTracker>();
+        (snap.entity_reaction_prepared, snap.entity_reaction_reacting) = t.verif_state();
+    }
+    {
+        let t = world.resource::<EventAccessTracker>();
+        (snap.event_prepared, snap.event_reacting) = t.verif_state();
+    }
+    {
+        let t = world.resource::<DespawnAccessTracker>();
+        (snap.despawn_prepared, snap.despawn_reacting, snap.despawn_handle_held) = t.verif_state();
+    }
+    {
+        let cache = world.resource::<ReactCache>();
+        cache.verif_fill(&mut snap);
+    }
+    snap.auto_despawn_pending = world.resource::<AutoDespawner>().verif_pending();
+
+    let mut q = world.query::<(Entity, &EntityReactors)>();
+    for (entity, reactors) in q.iter(world)
+    {
+        reactors.verif_fill(entity, &mut snap.tables);
+    }
+    let mut q = world.query::<(Entity, &SystemCommandStorage)>();
+    for (entity, storage) in q.iter(world)
+    {
+        snap.system_commands.push((entity, storage.verif_has_callback()));
+    }
+    snap.system_commands.sort();
+    let mut q = world.query_filtered::<Entity, With<DataEntityCounter>>();
+    for entity in q.iter(world)
+    {
+        snap.data_entities.push(entity);
+    }
+    snap.data_entities.sort();
+    snap.entity_count = world.entities().len() as usize;
+
+    snap
+}
+
+/// Counts entities that carry system event data of type `T`.
+pub fn count_system_event_data<T: Send + Sync + 'static>(world: &mut World) -> usize
+{
+    let mut q = world.query_filtered::<Entity, With<SystemEventData<T>>>();
+    q.iter(world).count()
+}
+
+/// Counts entities that carry broadcast event data of type `T`.
+pub fn count_broadcast_event_data<T: Send + Sync + 'static>(world: &mut World) -> usize
+{
+    let mut q = world.query_filtered::<Entity, With<BroadcastEventData<T>>>();
+    q.iter(world).count()
+}
+
+/// Counts entities that carry entity event data of type `T`.
+pub fn count_entity_event_data<T: Send + Sync + 'static>(world: &mut World) -> usize
+{
+    let mut q = world.query_filtered::<Entity, With<EntityEventData<T>>>();
+    q.iter(world).count()
+}
+
+/// Returns `true` if the entity carries local data for the entity world reactor `T`.
+pub fn has_entity_world_local<T: EntityWorldReactor>(world: &World, entity: Entity) -> bool
+{
+    world.get::<EntityWorldLocal<T>>(entity).is_some()
+}
+
+/// Returns the system command of a world reactor, if registered.
+pub fn world_reactor_system<T: WorldReactor>(world: &World) -> Option<SystemCommand>
+{
+    world.get_resource::<WorldReactorRes<T>>().map(|r| r.verif_sys_command())
+}
+
+/// Returns the system command of an entity world reactor, if registered.
+pub fn entity_world_reactor_system<T: EntityWorldReactor>(world: &World) -> Option<SystemCommand>
+{
+    world.get_resource::<EntityWorldReactorRes<T>>().map(|r| r.verif_sys_command())
+}
+
+/// Returns `true` if the entity has a despawn tracker.
+pub fn has_despawn_tracker(world: &World, entity: Entity) -> bool
+{
+    crate::react::verif_has_despawn_tracker(world, entity)
+}
+
+//-------------------------------------------------------------------------------------------------------------------
